@@ -7,6 +7,7 @@ package main
 // just allocated itself, and no call site whose contract modifies the named ghost state.
 
 import (
+	"go/token"
 	"fmt"
 	"go/types"
 	"sort"
@@ -86,10 +87,62 @@ func rootAlloc(v ssa.Value) bool {
 			v = x.X
 		case *ssa.IndexAddr:
 			v = x.X
+		case *ssa.UnOp:
+			// a pointer loaded from a field of a local struct: if the latest store to that field
+			// in the same block (no call in between) put a fresh allocation there, the pointer is
+			// that allocation (`to.Value = &v; to.Value.F = ...`)
+			fwd := forwardedStore(x)
+			if fwd == nil {
+				return false
+			}
+			v = fwd
 		default:
 			return false
 		}
 	}
+}
+
+func forwardedStore(ld *ssa.UnOp) ssa.Value {
+	if ld.Op != token.MUL {
+		return nil
+	}
+	fa, ok := ld.X.(*ssa.FieldAddr)
+	if !ok {
+		return nil
+	}
+	base, ok := fa.X.(*ssa.Alloc)
+	if !ok {
+		return nil
+	}
+	b := ld.Block()
+	idx := -1
+	for i, ins := range b.Instrs {
+		if ins == ld {
+			idx = i
+			break
+		}
+	}
+	for i := idx - 1; i >= 0; i-- {
+		switch y := b.Instrs[i].(type) {
+		case *ssa.Store:
+			if fa2, ok := y.Addr.(*ssa.FieldAddr); ok && fa2.X == base && fa2.Field == fa.Field {
+				return y.Val
+			}
+			if fa2, ok := y.Addr.(*ssa.FieldAddr); ok && fa2.X == base {
+				continue // another field of the same local
+			}
+			if _, ok := y.Addr.(*ssa.Alloc); ok {
+				continue
+			}
+			if rootAlloc(y.Addr) {
+				continue
+			}
+			return nil
+		case ssa.CallInstruction:
+			return nil
+		}
+	}
+	return nil
 }
 
 // scanPreserves checks one `preserves` location for function fn.
